@@ -18,8 +18,12 @@ ProgsFan == {[t \in Tasks |-> IF t = 1 THEN <<Sleep(1)>> \o [i \in 1..(N - 1) |-
 Restart(d) == St("restart", d, 0, "")
 ProgsFanRestart == {[t \in Tasks |-> IF t = 1 THEN <<Restart(1), Sleep(1)>> \o [i \in 1..(N - 1) |-> Send(i + 1)] ELSE <<Recv(t), Sleep(1)>>]}
 (* one receiver drains many messages in one poll; the sender produces them in one poll *)
-ProgsDrain == {[t \in Tasks |-> IF t = 1 THEN <<Sleep(1)>> \o [i \in 1..40 |-> Send(2)] \o <<Sleep(1)>>
-                                ELSE IF t = 2 THEN [i \in 1..40 |-> Recv(2)] \o <<Sleep(1)>> ELSE <<Sleep(2)>>]}
+ProgsDrainK(k) == {[t \in Tasks |-> IF t = 1 THEN <<Sleep(1)>> \o [i \in 1..k |-> Send(2)] \o <<Sleep(1)>>
+                                    ELSE IF t = 2 THEN [i \in 1..k |-> Recv(2)] \o <<Sleep(1)>> ELSE <<Sleep(2)>>]}
+ProgsDrain == ProgsDrainK(40)
+ProgsDrain128 == ProgsDrainK(128)      \* tokio's cooperative budget: 128 operations per poll
+ProgsDrain129 == ProgsDrainK(129)
+ProgsDrain300 == ProgsDrainK(300)
 (* many tasks whose timers expire at the same instant *)
 ProgsSameDeadline == {[t \in Tasks |-> <<Sleep(2), Sleep(1)>>]}
 =============================================================================
